@@ -178,28 +178,39 @@ def job_gmm(Kc, d, n=2):
             ch = [c for c in gen.calls if c["kind"] == "choice"]
             checks.append(("labels drawn with the given proportions", len(ch) == 1 and ch[0]["K"] == Kc and ch[0]["p"] is not None and _same(ch[0]["p"], pv), "proportions"))
             draws = [c for c in gen.calls if c["kind"] in ("normal", "mvn")]
-            okd = len(draws) == Kc
-            if okd:
-                for k, c in enumerate(draws):
+            labs = [int(v.concretise()) if isinstance(v, core.SymInt) else int(v) for v in np.asarray(y, dtype=object).reshape(-1)]
+            X = np.asarray(X, dtype=object)
+            oksh = X.shape == (n, d) and len(labs) == n and all(0 <= l < Kc for l in labs)
+            checks.append(("shape (n, d), one label per sample in [0, K)", oksh, "shape-labels"))
+            if oksh:
+                # implementation-independent: every output row must be an entry of SOME draw requested with the documented parameters
+                # of the component named by its label, and no drawn value may be used twice
+                used = set()
+                okc, okv, oku = True, True, True
+                for i, l in enumerate(labs):
+                    src = None
+                    for ci, c in enumerate(draws):
+                        V = np.asarray(c["value"], dtype=object)
+                        V2 = V.reshape(V.shape[0], -1) if V.ndim >= 1 and V.size else V.reshape(0, d)
+                        for r in range(V2.shape[0]):
+                            if V2.shape[1] == d and _same(V2[r], X[i]):
+                                src = (ci, r)
+                    if src is None:
+                        okc = False
+                        continue
+                    if src in used:
+                        oku = False
+                    used.add(src)
+                    c = draws[src[0]]
                     if d == 1:
-                        okd = okd and c["kind"] == "normal" and _k(np.asarray(c["loc"], dtype=object).reshape(-1)[0]) == _k(loc[k, 0])
+                        okc = okc and c["kind"] == "normal" and _k(np.asarray(c["loc"], dtype=object).reshape(-1)[0]) == _k(loc[l, 0])
+                        okv = okv and harness.prove_zero(to_rat(np.asarray(c["scale"], dtype=object).reshape(-1)[0]) ** 2 - to_rat(scale[l, 0]), list(ex.pc), timeout_s=10.0)["verdict"] == "unsat"
                     else:
-                        okd = okd and c["kind"] == "mvn" and _same(c["mean"], loc[k]) and _same(c["cov"], scale[k])
-            checks.append(("one draw per component, requested with that component's documented mean (and covariance)", okd, "component-parameters"))
-            if okd and d == 1:
-                okv = all(harness.prove_zero(to_rat(np.asarray(c["scale"], dtype=object).reshape(-1)[0]) ** 2 - to_rat(scale[k, 0]), list(ex.pc), timeout_s=10.0)["verdict"] == "unsat"
-                          for k, c in enumerate(draws))
-                checks.append(("d=1: the requested standard deviation squared equals the documented variance", okv, "variance-as-std"))
-            if okd:
-                labs = [int(v.concretise()) if isinstance(v, core.SymInt) else int(v) for v in np.asarray(y, dtype=object).reshape(-1)]
-                X = np.asarray(X, dtype=object)
-                okx = X.shape == (n, d) and all(0 <= l < Kc for l in labs)
-                if okx:
-                    for i, l in enumerate(labs):
-                        src = np.asarray(draws[l]["value"], dtype=object)
-                        row = src[i].reshape(-1) if src.ndim > 1 else np.array([src[i]], dtype=object)
-                        okx = okx and _same(X[i], row)
-                checks.append(("sample i is row i of the draw of the component named by its label; shapes and label range", okx, "sample-component"))
+                        okc = okc and c["kind"] == "mvn" and _same(c["mean"], loc[l]) and _same(c["cov"], scale[l])
+                checks.append(("every sample is a draw requested with the documented mean (and covariance) of the component named by its label", okc, "sample-component"))
+                checks.append(("no drawn value is used for two samples", oku, "draw-reused"))
+                if d == 1:
+                    checks.append(("d=1: the requested standard deviation squared equals the documented variance", okv, "variance-as-std"))
         for nm, ok, short in checks:
             res["obligations"].append({"name": f"{tag}/{nm}", "verdict": "unsat" if ok else "sat", "how": "tagged-draws / term-identity"})
             if not ok:
@@ -462,6 +473,14 @@ def replay(rep, verbose=False):
         ok = X.shape == (n, d) and np.abs(X.mean(0) - loc).max() < 0.05 and np.abs(C - S * df / (df - 2)).max() < 0.1 * np.abs(S).max() * df / (df - 2)
         if verbose:
             print("mean", X.mean(0), "cov", C.tolist(), "expected", (S * df / (df - 2)).tolist())
+        if ok and d >= 2:
+            # one mixing variable per SAMPLE: with a rank-one scale every sample lies on a line through loc
+            S1 = np.ones((d, d))
+            Y = data.multivariate_student_t(2000, loc, S1, 3.0, 5) - loc
+            gap = np.abs(Y - Y[:, :1]).max() / max(1.0, np.abs(Y).max())
+            if verbose:
+                print("rank-one scale: max relative deviation from the line", gap)
+            ok = gap < 1e-6
         return not ok
     if kind == "named":
         which = rep["which"]
